@@ -616,7 +616,11 @@ def get_item(interp: Any, c: Any, k: Any) -> Any:
         return c.getitem(interp.ctx, k)
     if isinstance(c, dict):
         if isinstance(k, (SV, SB)):
-            raise OutOfReach("symbolic dict key")
+            # lookup by a symbolic numeric key: decided key by key (path split on equality)
+            for kk in list(c):
+                if isinstance(kk, (int, Fraction, SV)) and interp.truth(interp.equals(kk, k)):
+                    return c[kk]
+            raise PyRaise("KeyError", repr(k))
         for kk in c:
             if interp._key_eq(kk, k):
                 return c[kk]
